@@ -13,6 +13,7 @@ mentioning a script declaration at any depth is refused for every Rust type
 Some(T) }` is admitted as `Option<u32>` and Rust's `Some(5)` is the script's `None`).
 -/
 import RotoV.Model.BoundaryGate
+import RotoV.Lemmas.BoundaryValues
 
 namespace RotoV.C05
 
@@ -287,5 +288,35 @@ theorem ident_only_gate_reinterprets :
     ∧ (indexOf .Some rotoOptionVariants 0).bind (nameAt [(.None, []), (.Some, [0])]) = some .None
     ∧ (indexOf .Some [(.None, []), (.Some, [0])] 0).bind (nameAt rotoOptionVariants) = some .None := by
   decide
+
+/-! ## Values read with a declaration's own variant table -/
+
+/-- **`declared_same_tables_read_same`** (∀ tables, ∀ values of any nesting).  Reading with ANY variant
+    tables that name, at the discriminants Rust writes, the variants Rust means with the same payload
+    parameter (`GoodTables`: e.g. a declaration equal to the built-in one) sees every value unchanged —
+    which script declarations would be harmless to admit. -/
+theorem declared_same_tables_read_same (tbls : EnumOf → List (VName × List Nat)) (g : GoodTables tbls)
+    (v : RVal) (sh : Shape) (hs : v.hasShape sh = true) :
+    ∃ t, transform v = some t ∧ decode tbls sh t = some v :=
+  decode_transform tbls g v sh hs
+
+/-- **`declared_order_matters`** (∀ tables, ∀ payloads).  And conversely: if the table the script uses
+    for a one-parameter enum names anything but `Some` at discriminant 0 (Rust's `Some`), then no
+    `Some(x)` sent by Rust is read as `Some(x)` by the script. -/
+theorem declared_order_matters (tbls : EnumOf → List (VName × List Nat)) (n : VName)
+    (hn : nameAt (tbls .option) 0 = some n) (hne : n ≠ .Some) (x : Nat) :
+    ∃ t, transform (.some (.leaf x)) = some t ∧ decode tbls (.option .leaf) t ≠ some (.some (.leaf x)) := by
+  refine ⟨.tagged 0 (some (.leaf x)), by simp [transform, tag, indexOf, rotoOptionVariants], ?_⟩
+  rw [decode, decodeTagged, hn]
+  intro h
+  split at h
+  · rename_i n' sh h1 h2
+    cases h1
+    cases n <;> simp [mkVariant, Option.bind_eq_some_iff] at h hne
+  · cases h
+
+example : ∃ t, transform (.some (.leaf 5)) = some t
+    ∧ decode (fun _ => [(.None, []), (.Some, [0])]) (.option .leaf) t ≠ some (.some (.leaf 5)) :=
+  declared_order_matters _ .None (by decide) (by decide) 5
 
 end RotoV.C05
